@@ -700,13 +700,33 @@ impl FsRun<'_> {
         // route 2: the function reached through a NAME bound to it and called inside a function literal with literal
         // arguments (`al := std.fs.f; g := () -> any { return al(..) }; g()'); the program is parsed once and run
         // again at every later state of the walk — the call happens when g is called, not when it is made or parsed
-        let text = if route == 2 {
+        if route == 2 {
+            // the function value g is made ONCE per call of the model (at whatever state the walk is in then) and kept;
+            // every use of the call afterwards — at other states — calls the kept g through the host API
             let (fname, rest) = text.split_once('(').unwrap();
-            format!("al := {fname}; g := () -> any {{ return al({rest} }}; g()")
-        } else { text };
-        let key = ci + if route == 2 { 1_000_000 } else { 0 };
-        let ci = key;
-        let out = if route == 0 || route == 2 {
+            let text = format!("al := {fname}; () -> any {{ return al({rest} }}");
+            if !self.fns.contains_key(&text) {
+                let made = catch(|| Code::parse(&self.lib.interp, &text).map_err(|e| e.to_string()).and_then(|c| c.exec().map_err(|e| e.to_string())));
+                match made {
+                    Ok(Ok(Variable::Function(f))) => { self.fns.insert(text.clone(), f); }
+                    Ok(Ok(_)) => return json!({"k": "rejected", "msg": "not a function"}),
+                    Ok(Err(e)) => return json!({"k": "rejected", "msg": e}),
+                    Err(p) => return json!({"k": "panic", "msg": p}),
+                }
+            }
+            let f = self.fns[&text].clone();
+            let out = Lib::outcome(catch(|| {
+                let code = f.create_call(vec![]).map_err(|e| json!({"k": "rejected", "msg": e.to_string()}).to_string())?;
+                code.exec().map_err(|e| json!({"k": "error", "msg": e.to_string()}).to_string())
+            }));
+            let key = format!("{name} {}", out);
+            if self.results.len() < 4000 && !self.results.contains_key(&key) {
+                self.results.insert(key, json!({"ev": "call", "id": format!("fs{}", self.results.len()), "name": name,
+                    "route": "alias-in-function", "args": args, "out": out, "text": text}));
+            }
+            return out;
+        }
+        let out = if route == 0 {
             if !self.progs.contains_key(&ci) {
                 match catch(|| Code::parse(&self.lib.interp, &text)) {
                     Ok(Ok(code)) => { self.progs.insert(ci, code); }
